@@ -25,6 +25,9 @@ D1 :: distinct i32;
 D2 :: distinct i32;
 D3 :: distinct D1;
 DU :: distinct u8;
+DW :: distinct u32;
+DX :: distinct u64;
+DI :: distinct i64;
 E1 :: enum { A: i32, B };
 E2 :: enum { A: i32, B };
 S1 :: struct { x: i32 };
@@ -112,6 +115,21 @@ def gen(quick):
             ok = A == B
             body = SETUP + f"\nr := {ae} {op} {be};"
             cases.append(Case(f"binop/{A}{op}{B}", body, "" if ok else None, accept=ok))
+    # a distinct value mixed with a *typed* value of its own underlying type: binary operators (both orders), compound
+    # assignment (both directions) and if/else branches all need a common type, and there is none
+    for D, dv, U, uv in (("D1", "d1v", "i32", "iv"), ("D3", "d3v", "i32", "iv"), ("DU", "duv", "u8", "uv"), ("DW", "dwv", "u32", "wv"),
+                         ("DX", "dxv", "u64", "xv"), ("DI", "div", "i64", "lv")):
+        extra = "dwv : DW = 5; wv : u32 = 6; dxv : DX = 7; xv : u64 = 8; div : DI = 9;"
+        pre = SETUP + "\niv : i32 = 1; uv : u8 = 2; lv : i64 = 3;\n" + extra + "\n"
+        for op in ("+", "*", "==", "<"):
+            cases.append(Case(f"mix/{D}{op}{U}", pre + f"r := {dv} {op} {uv};", None, accept=False))
+            cases.append(Case(f"mix/{U}{op}{D}", pre + f"r := {uv} {op} {dv};", None, accept=False))
+        cases.append(Case(f"mix/{U}+={D}", pre + f"t : {U} = {uv}; t += {dv};", None, accept=False))
+        cases.append(Case(f"mix/{D}+={U}", pre + f"t : {D} = {dv}; t += {uv};", None, accept=False))
+        cases.append(Case(f"mix/if-{D}-else-{U}", pre + f"r := if iv == 1 {{ {dv} }} else {{ {uv} }};", None, accept=False))
+        cases.append(Case(f"mix/if-{U}-else-{D}", pre + f"r := if iv == 1 {{ {uv} }} else {{ {dv} }};", None, accept=False))
+        # the same operations on two values of the distinct type itself are fine
+        cases.append(Case(f"mix/{D}+{D}", pre + f"r : {D} = {dv} + {dv}; t : {D} = {dv}; t += {dv}; q := if iv == 1 {{ {dv} }} else {{ t }};", ""))
     # untyped literals into distinct integer types; explicit casts distinct <-> underlying preserve the value
     for D, under, lit in (("D1", "i32", 41), ("D2", "i32", 42), ("D3", "i32", 43), ("DU", "u8", 200)):
         cases.append(Case(f"literal/{D}", f"x : {D} = {lit}; y : {D} = x + 1; pr(i64.({under}.(y)));", f"{lit + 1} "))
